@@ -445,3 +445,34 @@ func VC18Levels() {
 	}
 	vrt.Observe("writes", len(*core.writes))
 }
+
+// vDynEnab18 is a level threshold that moves after handlers were built and derived (what an AtomicLevel does).
+type vDynEnab18 struct{ thr *zapcore.Level }
+
+func (d vDynEnab18) Enabled(l zapcore.Level) bool { return l >= *d.thr }
+
+//verif: prop=C18 bounds="core threshold moved (any valid level to any valid level) after the handler was built and derived by 0..2 steps (WithGroup / WithAttrs); then a record at one of the four named slog levels through the real slog.Logger front end: Enabled and delivery agree with the threshold in force at the call"
+func VC18LiveLevel() {
+	thr := zapcore.Level(vrt.IntRange("level0", -1, 5))
+	core := vNewRecCore(vDynEnab18{&thr})
+	var h slog.Handler = NewHandler(core)
+	for i, n := 0, vrt.Choice("steps", 3); i < n; i++ {
+		if vrt.Choice(fmt.Sprintf("op%d", i), 2) == 0 {
+			h = h.WithGroup("g")
+		} else {
+			h = h.WithAttrs([]slog.Attr{slog.Int("a", i)})
+		}
+	}
+	thr = zapcore.Level(vrt.IntRange("level1", -1, 5))
+	sl := []slog.Level{slog.LevelDebug, slog.LevelInfo, slog.LevelWarn, slog.LevelError}[vrt.Choice("record", 4)]
+	want := vRefLevel(sl) >= thr
+	vrt.Assert("enabled-iff-core-enables-mapped-level", h.Enabled(context.Background(), sl) == want)
+	slog.New(h).Log(context.Background(), sl, "msg", "k", 1)
+	vrt.Observe("writes", len(*core.writes))
+	if want {
+		vrt.Assert("handled-at-mapped-level", len(*core.writes) == 1 && (*core.writes)[0].ent.Level == vRefLevel(sl))
+	} else {
+		vrt.Assert("not-handled-when-disabled", len(*core.writes) == 0)
+	}
+	vrt.Cover("done")
+}
